@@ -17,7 +17,8 @@ EXPLANATION = (
     "every count that sizes a loop or allocation is converted with try_from; (R5) the only io::Result matches that turn an "
     "error into a success are the tabled EOF conversions (C14.R1b)."
     " R1 also covers the eager BCF reader (genuine defect F25, repaired; the site had been mis-triaged as safe in the error-to-success table); (R6) the bgzf read_nonempty_block_with returns a nonzero length only for a block read by that call, so the direct-read path cannot report bytes it did not produce at the end of a stream without EOF block (genuine defect F26, repaired)."
-    " (R7) a truncated text stream ends the scan: every loop around fill_buf has an exit edge controlled by the emptiness of the window.")
+    " (R7) a truncated text stream ends the scan: every loop around fill_buf has an exit edge controlled by the emptiness of the window."
+    " (R8) a read error inside an iterator chain reaches the caller: no Result is consumed as an iterator (flat_map over a Result, Result::into_iter), which would turn a cut-off list into a shorter list and Ok.")
 ASSUMPTIONS = ["read_exact reports UnexpectedEof on a short source (std/tokio contract)",
                "the 'never panics' clause is C15's inventory restricted to these readers"]
 NOT_DECIDED = ["that the records yielded before the error equal the originally written prefix (needs values)",
